@@ -184,6 +184,64 @@ def run(rep, tier="quick", replay=None, evidence_dir=None):
                             ok = True
             rep.ob("C02.R2", "%s reads the next block header when the current block is exhausted" % c.split(">::")[-1], ok,
                    "an array or map split over several blocks would be cut after its first block", b.loc())
+    # the per-block item loop of the generic decoder is bounded by the block's count alone: its exit condition must not
+    # depend on the length of the collection it fills (that length includes the items of earlier blocks)
+    db = prog.body("decode::decode_internal")
+    vp = T["wire"].vpes(db)
+    droot = [r for r, a in vp.roots.items() if a == "schema::Schema"][0]
+    for shp in ("Array", "Map"):
+        reg = vp.region({(droot, ()): shp})
+        rec = [bi for bi, t in db.calls() if bi in reg and callee_names(t["func"])[-1] == "decode::decode_internal" and sum(1 for h, lb in db.loops() if bi in lb) >= 2]
+        ok = bool(rec)
+        why = "no nested item loop found"
+        for rbi in rec:
+            lp = shape.loop_of(db, rbi)
+            if not lp:
+                ok = False
+                continue
+            h, body_ = lp
+            grown = set()
+            for bi, t in db.calls():
+                nm = callee_names(t["func"])
+                if bi in body_ and nm and nm[0].split("::")[-1] in ("push", "insert", "push_back", "extend") and t["args"] and t["args"][0].get("k") in ("copy", "move"):
+                    grown.add(db.pldesc(t["args"][0]["pl"]))
+            for sbi in body_:
+                tt = db.blocks[sbi]["term"]
+                if tt["t"] != "switch" or all(x in body_ for x in db.succ[sbi]):
+                    continue
+                # backward slice of the exit condition
+                work = [tt["discr"]]
+                seen_l = set()
+                steps = 0
+                while work and steps < 80:
+                    steps += 1
+                    o = work.pop()
+                    if o.get("k") not in ("copy", "move"):
+                        continue
+                    l0 = o["pl"]["l"]
+                    if l0 in seen_l or 1 <= l0 <= db.argc:
+                        continue
+                    seen_l.add(l0)
+                    for (dbi, si, kind, payload) in db.defs.get(l0, []):
+                        if dbi not in reg:
+                            continue
+                        if kind == "call":
+                            nm = callee_names(payload["func"])
+                            if nm and nm[0].endswith("::len") and payload["args"] and payload["args"][0].get("k") in ("copy", "move") and db.pldesc(payload["args"][0]["pl"]) in grown:
+                                ok = False
+                                why = "the loop's exit test at %s reads %s.len(), the collection the loop fills" % (db.loc(sbi), db.pldesc(payload["args"][0]["pl"]))
+                            if nm and (nm[0].endswith("Try::branch") or nm[0].endswith("Iterator::next")):
+                                continue
+                            work.extend(payload["args"])
+                        elif kind == "assign":
+                            rv = payload
+                            for key in ("o", "a", "b"):
+                                if isinstance(rv.get(key), dict):
+                                    work.append(rv[key])
+                            if rv.get("pl"):
+                                work.append({"k": "copy", "pl": rv["pl"]})
+        rep.ob("C02.R2", "decode %s: the item loop of a block is bounded by that block's count, not by the total collected so far" % shp, ok, why, db.loc())
+
     # ---------------- R3
     W = "serde::ser_schema::block::BufferedBlockSerializer::<'s, 'w, W, S>::"
     wb = get(prog, rep, "C02.R3", W + "write_block")
